@@ -96,6 +96,8 @@ class Registry:
         self.assumptions: list[str] = []
         self.exc_parents: dict[str, str] = {}
         self.lemma_obs: dict[str, dict] = {}
+        self.globals: dict[str, object] = {}
+        self.regions: dict[tuple, dict] = {}
         self.kind_hints: dict = {}
 
     # the functions below are what spec files use -------------------------------------
@@ -141,6 +143,17 @@ class Registry:
         self.lemma_obs[name] = dict(name=name, vars=OrderedDict((k, parse_kind(v)) for k, v in vars.items()),
                                     assumes=_clauses(assumes, "assume"), shows=_clauses(shows, "show"),
                                     props=list(props), hints=list(hints), note=note)
+
+    def region(self, qualname, stmt_type, ordinal, assigns, note=""):
+        """Abstract the `ordinal`-th statement of type `stmt_type` (If/For/While/Try, source order) of a
+        function: it only assigns the given locals (name -> kind) to arbitrary values, has no heap effect
+        and raises nothing.  Checked syntactically (only Name targets, all declared); listed as assumption."""
+        self.regions[(qualname, stmt_type, ordinal)] = dict(
+            assigns=OrderedDict((k, parse_kind(v)) for k, v in assigns.items()), note=note)
+
+    def global_value(self, name, kind):
+        """A module-level object of the package modelled as an (arbitrary, pre-existing) value of `kind`."""
+        self.globals[name] = parse_kind(kind)
 
     def inline_fn(self, *qualnames):
         self.inline.update(qualnames)
